@@ -55,6 +55,11 @@ func ParseFixed(s string) (v *big.Int, ok bool, canonical bool) {
 		canonical = len(s) == 1 || s[0] != '0'
 		return v, v.Sign() > 0, canonical
 	}
+	if len(s) > 1 && s[0] == '-' && decimal.MatchString(s[1:]) && (len(s) == 2 || s[1] != '0') {
+		// a plain negative decimal: clearly not a positive integer
+		v, _ = new(big.Int).SetString(s, 10)
+		return v, false, true
+	}
 	if x, good := new(big.Int).SetString(s, 0); good {
 		return x, x.Sign() > 0, false
 	}
